@@ -3,6 +3,7 @@ package rules
 import (
 	"fmt"
 	"go/token"
+	"go/types"
 	"strings"
 
 	"golang.org/x/tools/go/ssa"
@@ -18,6 +19,7 @@ func init() {
 			"R18.3 guards: Delete only under deletePVC ∧ the Update succeeded; Update only when the replica count of the StatefulSet just read from the API server (Get) is set and differs from the request, and no successful return precedes that read; the value stored is the request; " +
 			"R18.4 rolling update: a manager is appended only under Status.Replicas == Status.UpdatedReplicas; R18.5 the StatefulSet a manager keeps is an object of its own iteration (not the address of a variable shared by all iterations under the language version of go.mod). " +
 			"R18.4 also: every list of managers Replicas returns is built in that call from the listing of that call. " +
+			"R18.1 also: what is appended to the shard list is the shard built from this listing, never one kept from an earlier call. " +
 			"Not decided: the behaviour of the Kubernetes API server / fake clientset.",
 		Assumptions: []string{"go/types and go/ssa are correct", "StatefulSet pod naming <set>-<ordinal> and claim naming <template>-<set>-<ordinal> (Kubernetes convention)"}})
 }
@@ -212,6 +214,43 @@ func runC18(p *engine.Prog, r *engine.Report) {
 				}
 				if !from(argT[2]) || !strings.Contains(argT[2], "PodIP") {
 					probs = append(probs, "readiness is "+short(argT[2])+", not derived from the looked-up pod")
+				}
+			}
+			// what is appended to the list is that new shard (through phis: one on every path), never a shard kept from an
+			// earlier listing (its address was fixed when it was built)
+			for _, in := range allInstrs(fn) {
+				ap, ok := in.(*ssa.Call)
+				if !ok {
+					continue
+				}
+				if bi, ok := ap.Call.Value.(*ssa.Builtin); !ok || bi.Name() != "append" || !strings.HasSuffix(ap.Type().String(), "shard.Shard") {
+					continue
+				}
+				for _, e := range varargElems(ap.Call.Args[1]) {
+					var bad ssa.Value
+					var walk func(v ssa.Value, seen map[ssa.Value]bool)
+					walk = func(v ssa.Value, seen map[ssa.Value]bool) {
+						if seen[v] || bad != nil {
+							return
+						}
+						seen[v] = true
+						switch x := v.(type) {
+						case *ssa.Phi:
+							for _, ed := range x.Edges {
+								walk(ed, seen)
+							}
+						case *ssa.Call:
+							if x.Call.StaticCallee() == nil || x.Call.StaticCallee().Object() != types.Object(newShard) {
+								bad = v
+							}
+						default:
+							bad = v
+						}
+					}
+					walk(e, map[ssa.Value]bool{})
+					if bad != nil {
+						probs = append(probs, "the list receives "+short(fi.T(bad).S)+" at "+p.Rel(ap.Pos())+", not a shard built from this listing")
+					}
 				}
 			}
 			r.Check(len(probs) == 0, "R18.1-ordinal-order", "shard list in "+engine.FuncName(fn), "NewShard at "+p.Rel(call.Pos()), "shard i = pod named <set>-i from the name table; id, address, readiness from that pod", strings.Join(probs, "; "))
